@@ -367,6 +367,7 @@ class History:
         self.loaded = {}    # handle -> reactor
         self.loaded_at = {}  # handle -> index of its Load event
         self.slot_src = {}  # slot -> tag of the projection that was written
+        self.dead = False   # a call raised: the history ends there
         self.details = {}   # ("live", event index) / ("load", h) / ... -> (nodes, details) for naming differences
         self.notes = []
 
@@ -377,7 +378,10 @@ class History:
             kinds.append("GrowToFull")
         for _ in range(n):
             k = self.rng.choice(kinds)
-            d = getattr(self, "m_" + k)()
+            try:
+                d = getattr(self, "m_" + k)()
+            except Exception as ex:  # noqa: BLE001  what a mutation does (or refuses) is not C04's subject: any state is a state
+                d = "%s raised %s" % (k, type(ex).__name__)
             if d:
                 self.how.append(d)
 
@@ -526,6 +530,10 @@ class History:
         except (ValueError, NotImplementedError) as ex:
             self.ev.append({"a": dict(a, n="WriteRefused"), "post": {"exception": type(ex).__name__}})
             return False
+        except Exception as ex:  # noqa: BLE001  an exception escaping a legal call is an observation TLC judges (clause Raised)
+            self.ev.append({"a": a, "post": {"exception": type(ex).__name__, "text": str(ex)[:300]}})
+            self.dead = True
+            return False
         db.h5db.flush()
         self.slots[slot] = (tag, cycle, node)
         self.slot_src[slot] = ("load@%d" % self.loaded_at[extra["h"]]) if "h" in extra else "live@%d" % len(self.ev)
@@ -554,12 +562,18 @@ class History:
         db.open()
         try:
             r2 = db.load(cycle, node, cs=self.w.cs, bp=gen_reactor.fresh_blueprints(self.w))
+            self._proj(r2, "probe")      # a query that raises on the loaded reactor is part of the same observation
+        except Exception as ex:  # noqa: BLE001
+            self.ev.append({"a": {"n": "Load", "s": slot, "h": h}, "post": {"exception": type(ex).__name__, "text": str(ex)[:300]}})
+            self.dead = True
+            return False
         finally:
             db.close()
         self.loaded[h] = r2
         self.loaded_at[h] = len(self.ev) + 1
         nodes = self._proj(r2, "load@%d" % (len(self.ev) + 1))
         self.ev.append({"a": {"n": "Load", "s": slot, "h": h}, "post": {"state": nodes}})
+        return True
 
     def close_db(self, tag):
         """finish a database file (armi moves it from its fast path to the given path on close)"""
@@ -597,12 +611,11 @@ def play(hid, family, variant, seed, workdir, nmut=6, two_snapshots=True):
             h.advance(1)
             h.state()
             ok2 = h.write(2)
-        if ok1:
-            h.load(1, 1)
-            h.load(1, 2)
-        if ok2:
+        if ok1 and not h.dead:
+            _ = h.load(1, 1) and h.load(1, 2)
+        if ok2 and not h.dead:
             h.load(2, 3)
-        if ok1 and h.resave(1, 3):
+        if ok1 and not h.dead and h.resave(1, 3):
             h.load(3, 4)
     finally:
         h.close()
@@ -620,6 +633,8 @@ CLAUSE_DETAIL = {"Dimensions": "pd", "Composition": "pn", "Parameters": "pp", "C
 def name_verdict(h, v):
     """-> list of (key suffix, text) for one verdict line of DbState_trace"""
     call, clause = v["call"], v["clause"]
+    if clause.startswith("Raised:"):
+        return [(clause, "%s raised %s: %s" % (call, clause[7:], h.ev[v["at"] - 1]["post"].get("text", "")))]
     if clause.startswith("File:") or clause in ("Shape", "RefusalExpected", "LoadTwice") or clause.startswith("UnexpectedRefusal"):
         return [(clause, "%s: %s differs from the specification at %s position(s), first %s" % (call, clause, v["n"], v["first"]))]
     ev = h.ev[v["at"] - 1]
@@ -939,13 +954,11 @@ def run(rep, tier, seed):
         _tlc_verdict(rep, "exhaustive:Layout_mc%s.cfg" % sfx, res)
         if res.distinct < 1000:
             raise tlc.MachineryError("vacuous: Layout_mc explored %d trees" % res.distinct)
-        # quick: invariants without coverage counters (3x faster), actions' non-vacuity from a small separate run
-        res = tlc.run("DbState_mc", "DbState_mc%s.cfg" % sfx, MODDIR, want_prints=False, timeout=3000, coverage=thorough)
+        # invariants without coverage counters (3x faster); the actions' non-vacuity from a small separate run with -coverage
+        res = tlc.run("DbState_mc", "DbState_mc%s.cfg" % sfx, MODDIR, want_prints=False, timeout=3000, coverage=False)
         _tlc_verdict(rep, "exhaustive:DbState_mc%s.cfg" % sfx, res)
-        cov = res
-        if not thorough:
-            cov = tlc.run("DbState_mc", "DbState_cov.cfg", MODDIR, want_prints=False, timeout=3000)
-            _tlc_verdict(rep, "coverage:DbState_cov.cfg", cov)
+        cov = tlc.run("DbState_mc", "DbState_cov.cfg", MODDIR, want_prints=False, timeout=3000)
+        _tlc_verdict(rep, "coverage:DbState_cov.cfg", cov)
         never = [a for a in DB_ACTIONS if cov.coverage.get(a, (0, 0))[1] == 0]
         if never:
             raise tlc.MachineryError("vacuous: DbState actions never taken: %s" % never)
@@ -977,7 +990,7 @@ def run(rep, tier, seed):
     rep.sample({"kind": "generic-tree", "tree": sample[len(sample) // 2]["t"], "expected_file": sample[len(sample) // 2]["file"]})
 
     # 3. code -> spec: real histories on reactors armi builds from generated blueprints
-    nh = 240 if thorough else (6 if _SELFTEST else 8)
+    nh = 180 if thorough else (6 if _SELFTEST else 8)
     plan = history_plan(nh, seed)
     wd = common.workdir("c04")
     hs, traces = run_histories(plan, wd)
@@ -1038,3 +1051,128 @@ def replay(payload):
         return 1 if hit else 0
     print("replay of direction=%s: see payload (TLC trace)" % payload.get("direction"))
     return 0
+
+
+def selftest():
+    """In-process mutants of the anchored code; each must change the set of violation keys of a reduced run (generic
+    trees + 6 real histories).  Findings of the unmutated tree are the baseline and are not counted."""
+    global _SELFTEST
+    from harness.report import Report
+    from harness.selftest import patched, run_mutants
+
+    armi_ready()
+    import contextlib
+
+    import numpy as np
+    from armi.bookkeeping.db import database as D
+    from armi.bookkeeping.db import layout as L
+    from armi.reactor import grids, parameters
+    from armi.reactor.components import component as C
+    from armi.reactor.grids import structuredGrid as SG
+
+    _SELFTEST = True
+
+    def detect():
+        rep = Report("C04", "quick", 0)
+        run(rep, "quick", 0)
+        return [v["key"] for v in rep.violations]
+
+    def create_layout(nosort=False, grid_by_type=False, shared_index=False, hot_twice=False):
+        def _createLayout(self, comp):
+            compList = self.groupedComps[type(comp)]
+            compList.append(comp)
+            self.type.append(comp.__class__.__name__)
+            self.name.append(comp.name)
+            self.serialNum.append(comp.p.serialNum)
+            self.indexInData.append(len(self.type) - 1 if shared_index else len(compList) - 1)
+            self.numChildren.append(len(comp))
+            if comp.spatialGrid is not None:
+                gridType = type(comp.spatialGrid).__name__
+                gridParams = (gridType, comp.spatialGrid.reduce())
+                key = gridType if grid_by_type else gridParams
+                if key not in self._seenGridParams:
+                    self._seenGridParams[key] = len(self.gridParams)
+                    self.gridParams.append(gridParams)
+                self.gridIndex.append(self._seenGridParams[key])
+            else:
+                self.gridIndex.append(None)
+            self._spatialLocators.append(comp.spatialLocator)
+            try:
+                self.temperatures.append((comp.temperatureInC if hot_twice else comp.inputTemperatureInC, comp.temperatureInC))
+                self.material.append(comp.material.__class__.__name__)
+            except Exception:  # noqa: BLE001
+                self.temperatures.append((-900, -900))
+                self.material.append("")
+            comps = list(comp) if nosort else sorted(list(comp))
+            for c in comps:
+                self._createLayout(c)
+
+        return _createLayout
+
+    def unpack_reversed_multi(locationTypes, locData):
+        out = L_unpack(locationTypes, locData)
+        return [list(reversed(x)) if isinstance(x, list) else x for x in out]
+
+    L_unpack = L._unpackLocationsV2
+
+    def pack_coord_as_index(locations):
+        types, data = L_pack3(locations)
+        return ["I" if t == "C" else t for t in types], data
+
+    L_pack3 = L._packLocationsV3
+
+    orig_toWrite = parameters.ParameterDefinitionCollection.toWriteToDB
+
+    def to_write_skips_serialized(self, assignedMask=None):
+        return [pd for pd in orig_toWrite(self, assignedMask) if pd.serializer is None]
+
+    def to_write_skips_power_like(self, assignedMask=None):
+        return [pd for pd in orig_toWrite(self, assignedMask) if not pd.name.lower().startswith(("p", "b"))]
+
+    orig_read_layout = L.Layout._readLayout
+
+    def read_layout_swaps_temperatures(self, h5group):
+        orig_read_layout(self, h5group)
+        self.temperatures = np.asarray(self.temperatures)[:, ::-1]
+
+    orig_reduce = SG.StructuredGrid.reduce
+
+    def reduce_drops_symmetry(self):
+        r = orig_reduce(self)
+        return grids.GridParameters(r.unitSteps, r.bounds, r.unitStepLimits, r.offset, r.geomType, "")
+
+    def reduce_drops_offset(self):
+        r = orig_reduce(self)
+        return grids.GridParameters(r.unitSteps, r.bounds, r.unitStepLimits, None, r.geomType, r.symmetry)
+
+    orig_compose = D.Database._compose
+
+    def resolve_nothing(self, components):
+        return None
+
+    orig_load = D.Database.load
+
+    def load_without_links(self, *a, **k):
+        with patched(C.Component, "resolveLinkedDims", resolve_nothing):
+            return orig_load(self, *a, **k)
+
+    P = patched
+    mutants = [
+        ("_packLocationsV3 stores local instead of complete indices", lambda: P(L, "_packLocationsV3", L._packLocationsV2)),
+        ("_packLocationsV3 labels free coordinates as grid indices", lambda: P(L, "_packLocationsV3", pack_coord_as_index)),
+        ("_unpackLocationsV2 returns multi-index sub-locations reversed", lambda: P(L, "_unpackLocationsV2", unpack_reversed_multi)),
+        ("_createLayout does not sort the children", lambda: P(L.Layout, "_createLayout", create_layout(nosort=True))),
+        ("_createLayout deduplicates grids by class only", lambda: P(L.Layout, "_createLayout", create_layout(grid_by_type=True))),
+        ("_createLayout counts indexInData over all types", lambda: P(L.Layout, "_createLayout", create_layout(shared_index=True))),
+        ("_createLayout writes (Thot, Thot) as temperatures", lambda: P(L.Layout, "_createLayout", create_layout(hot_twice=True))),
+        ("_readLayout swaps Tinput and Thot", lambda: P(L.Layout, "_readLayout", read_layout_swaps_temperatures)),
+        ("_writeParams skips parameters that have a serializer (flags)", lambda: P(parameters.ParameterDefinitionCollection, "toWriteToDB", to_write_skips_serialized)),
+        ("_writeParams skips parameters named p*/b*", lambda: P(parameters.ParameterDefinitionCollection, "toWriteToDB", to_write_skips_power_like)),
+        ("linked dimensions are not re-resolved on load", lambda: P(D.Database, "load", load_without_links)),
+        ("StructuredGrid.reduce drops the symmetry", lambda: P(SG.StructuredGrid, "reduce", reduce_drops_symmetry)),
+        ("StructuredGrid.reduce drops the offset", lambda: P(SG.StructuredGrid, "reduce", reduce_drops_offset)),
+    ]
+    try:
+        return run_mutants(mutants, detect)
+    finally:
+        _SELFTEST = False
